@@ -14,8 +14,10 @@ mod exact;
 mod exec;
 mod framework;
 mod gen;
+mod giant;
 mod hist;
 mod htypes;
+mod medium;
 mod p2model;
 mod props_r;
 mod registry;
@@ -42,6 +44,10 @@ fn main() {
         std::process::exit(replay_file(&path));
     }
     if args.iter().any(|a| a == "--oracle-selftest") {
+        if let Err(e) = medium::selftest() {
+            eprintln!("HARNESS-ERROR: storage media self-test failed: {}", e);
+            std::process::exit(2);
+        }
         oracle_cases();
         return;
     }
